@@ -6,9 +6,9 @@ import (
 	"testing/synctest"
 	"time"
 
-	"github.com/openconfig/gribigo/server"
 	aftpb "github.com/openconfig/gribi/v1/proto/gribi_aft"
 	spb "github.com/openconfig/gribi/v1/proto/service"
+	"github.com/openconfig/gribigo/server"
 	wpb "github.com/openconfig/ygot/proto/ywrapper"
 
 	"verifsim/simnet"
